@@ -6,7 +6,7 @@ B-tree, hash) against a reference multimap; concurrent writers / readers /
 scanners on one index with per-key presence intervals."""
 import os, random, shutil, struct, subprocess, tempfile
 from vlib import *
-from dbsession import DB
+from dbsession import DB, Proc
 from sqlgen import f32_bits
 
 
@@ -45,6 +45,28 @@ def run_seq(rng, res, kind, ty, nops):
         if not db.open().startswith("ok"):
             return [("open", "database does not start")]
         db.cmd("mktable t a:%s:%s,b:i:n" % (ty, kind))
+        # the extracted index-wrapper model (Model/IndexWrap.v) mirrors integer-key skip-list / B-tree indexes
+        model = Proc([os.path.join(BUILD, "c17_driver"), ty]) if ((ty in "if" and kind in "sb") or (ty == "s" and kind == "s")) else None
+        def mk(k):      # key token of the model driver: ints as numbers, floats as bit patterns, strings as hex
+            return str(k) if ty == "i" else (str(f32_bits(k)) if ty == "f" else (k.hex() or "-"))
+        mlog = []
+        def mirror(line, engine_answer, ordered=True):
+            if model is None:
+                return
+            mlog.append(line)
+            m = model.ask(line, 30)
+            res.extra["model_ops"] = res.extra.get("model_ops", 0) + 1
+            if m is None:
+                res.broken.append("c17_driver died on %r" % line); return
+            if engine_answer is None:
+                return
+            e = engine_answer
+            if e.startswith("ok:") and m.startswith("ok:"):
+                # B-tree int keys: same composite key bytes; both containers answer in composite-key order
+                if (e[3:].split(";") if ordered else sorted(e[3:].split(";"))) == (m[3:].split(";") if ordered else sorted(m[3:].split(";"))):
+                    return
+            if len(res.mismatches) < 5:
+                res.mismatches.append(("# index kind %s, key type %s; model session (build/c17_driver):\n%s" % (kind, ty, "\n".join(mlog[-400:])), "engine answered %s | index-wrapper model %s" % (e[:300], (m or "")[:300])))
         pool = key_pool(rng, ty, 60 if kind != "h" else 30)
         ref = set()          # (key, rid)
         uniq = kind == "u"
@@ -69,11 +91,11 @@ def run_seq(rng, res, kind, ty, nops):
                 if (k, rid) in ref:
                     continue
                 a = db.cmd("ixins t 0 %s %d %d" % (kt, rid[0], rid[1]))
-                ref.add((k, rid))
+                ref.add((k, rid)); mirror("ins %s %d %d" % (mk(k), rid[0], rid[1]), None)
             elif r < 0.65 and ref:
                 (k, rid) = rng.choice(sorted(ref, key=lambda e: (str(e[0]), e[1])))
                 a = db.cmd("ixdel t 0 %s %d %d" % (keytok(ty, k), rid[0], rid[1]))
-                ref.discard((k, rid))
+                ref.discard((k, rid)); mirror("del %s %d %d" % (mk(k), rid[0], rid[1]), None)
             elif r < 0.75 and ref and kind != "h":
                 (k, rid) = rng.choice(sorted(ref, key=lambda e: (str(e[0]), e[1])))
                 k2 = rnd_key(rng, ty, pool)
@@ -82,8 +104,10 @@ def run_seq(rng, res, kind, ty, nops):
                     continue
                 a = db.cmd("ixupd t 0 %s %d %d %s %d %d" % (keytok(ty, k), rid[0], rid[1], keytok(ty, k2), rid2[0], rid2[1]))
                 ref.discard((k, rid)); ref.add((k2, rid2))
+                mirror("upd %s %d %d %s %d %d" % (mk(k), rid[0], rid[1], mk(k2), rid2[0], rid2[1]), None)
             elif r < 0.92:
                 a = db.cmd("ixscan t 0 " + kt)
+                mirror("scan %s" % mk(k), a)
                 got = sorted(tuple(int(x) for x in e.split(".")) for e in a[3:].split(";")) if a.startswith("ok:") and a[3:] else []
                 if not a.startswith("ok") or got != rids_of(k):
                     fails.append(("lookup %s" % kt, "lookup of key %s returned %s, stored under it: %s" % (kt, got[:6], rids_of(k)[:6])))
@@ -92,6 +116,7 @@ def run_seq(rng, res, kind, ty, nops):
                 lo_t = "-" if rng.random() < 0.2 else keytok(ty, lo)
                 hi_t = "-" if rng.random() < 0.2 else keytok(ty, hi)
                 a = db.cmd("ixrange t 0 %s %s" % (lo_t, hi_t))
+                mirror("range %s %s" % ("-" if lo_t == "-" else mk(lo), "-" if hi_t == "-" else mk(hi)), a.replace("i:", "").replace("f:", "").replace("s:", "") if a.startswith("ok:") else a)
                 want = sorted((kk, rr) for (kk, rr) in ref if (lo_t == "-" or kk >= lo) and (hi_t == "-" or kk <= hi))
                 got = a[3:].split(";") if a.startswith("ok:") and a[3:] else []
                 wantk = [keytok(ty, kk) if not (ty == "f" and kk == 0.0) else "f:0" for kk, _ in want]
@@ -114,6 +139,8 @@ def run_seq(rng, res, kind, ty, nops):
                 fails.append(("full scan", "full scan returned %d entries, %d are stored" % (len(got), len(ref))))
         res.extra["entries_peak"] = max(res.extra.get("entries_peak", 0), len(ref))
     finally:
+        if model is not None:
+            model.close()
         if fails:
             fails = [("# session:\n" + "\n".join(db.log[-300:]) + "\n# at: " + d, w) for d, w in fails]
         db.destroy()
@@ -142,7 +169,7 @@ def run(res, replay=None):
     res.trusted = COMMON_TRUSTED + ["python reference multimap (checks/c17.py)", "the concurrent driver's presence intervals use a global atomic counter"]
     res.assumptions = ["hash index: no ordered scan, UpdateEntry unimplemented (F-HASH-UPDATE), capacity limited (kept below 30 distinct keys); unique skip list: one entry per key",
                        "the latch-coupling protocol of the skip list and the B-link tree library are not modelled: concurrency is covered by observed histories only"]
-    go_ok = standard_build(res, need_ocaml=False)
+    go_ok = standard_build(res)
     if not go_ok:
         return
     rng = random.Random(res.seed)
